@@ -129,3 +129,8 @@ func VerifBucketMetaFields(b *BucketMeta) (start, end []byte) { return b.start, 
 
 // VerifDataFileRW exposes the read/write manager of a data file.
 func VerifDataFileRW(df *DataFile) RWManager { return df.rwManager }
+
+// VerifNewHint builds an index hint for a key with the given flag.
+func VerifNewHint(key []byte, flag uint16) *Hint {
+	return &Hint{key: key, meta: &MetaData{Flag: flag}}
+}
